@@ -121,6 +121,9 @@ func checkC04(c *Ctx) {
 	}
 	_ = startCall
 	c.Note(fmt.Sprintf("anchors by role: engage=%s disengage=%s finalize=%s", engage.Name(), disengage.Name(), finalize.Name()))
+	// engage together with the helpers it is written with (a call that is itself an emission in the
+	// rules' vocabulary — enableMouse(f), TPuts, … — is not entered)
+	engDeep := deepInstrs(p, engage, 3, func(call ssa.Instruction, _ *ssa.Function) bool { return len(emitIdents(p, call)) == 0 })
 
 	// ---- R1
 	// what can be set anywhere in the screen
@@ -248,12 +251,13 @@ func checkC04(c *Ctx) {
 		for _, a := range guardsAt(startCall.Block()) {
 			commonE[a.String()] = true
 		}
-		sets := map[string][]ssa.Instruction{}
-		eachInstr(engage, func(in ssa.Instruction) {
-			for _, id := range emitIdents(p, in) {
-				sets[id] = append(sets[id], in)
+		// (engage's emissions may sit in helpers it is written with: enterScreen, applyModes, …)
+		sets := map[string][]deepInstr{}
+		for _, d := range engDeep {
+			for _, id := range emitIdents(p, d.in) {
+				sets[id] = append(sets[id], d)
 			}
-		})
+		}
 		for _, pr := range []struct {
 			kind, set string
 			guards    []string
@@ -276,7 +280,7 @@ func checkC04(c *Ctx) {
 			ok, why := false, ""
 			for _, s := range sites {
 				bad := []string{}
-				for _, a := range guardsAt(s.Block()) {
+				for _, a := range s.atoms() {
 					as := a.String()
 					if commonE[as] {
 						continue
@@ -297,7 +301,7 @@ func checkC04(c *Ctx) {
 					why = fmt.Sprintf("depends on %v although the reset is emitted at every hand-back", bad)
 				}
 			}
-			c.Check(ok, "C04-R7", "setup:"+pr.kind, p.pos(sites[0].Pos()), fmt.Sprintf("%s emitted by engage whenever its reset will be %s", pr.set, why))
+			c.Check(ok, "C04-R7", "setup:"+pr.kind, p.pos(sites[0].in.Pos()), fmt.Sprintf("%s emitted by engage whenever its reset will be %s", pr.set, why))
 		}
 	}
 
@@ -436,16 +440,23 @@ func checkC04(c *Ctx) {
 	type reapply struct{ callee, field string }
 	for _, ra := range []reapply{{"enableMouse", "mouseFlags"}, {"enablePasting", "pasteEnabled"}} {
 		ok := false
-		for _, call := range callsIn(engage, func(n string, _ *ssa.CallCommon) bool { return strings.HasSuffix(n, "tScreen)."+ra.callee) }) {
-			if ref, _, isF := loadedField(callCommon(call).Args[1]); isF && ref.Name == ra.field {
+		for _, d := range engDeep {
+			cc := callCommon(d.in)
+			if cc == nil || !strings.HasSuffix(calleeName(cc), "tScreen)."+ra.callee) || len(cc.Args) < 2 {
+				continue
+			}
+			if ref, _, isF := loadedField(cc.Args[1]); isF && ref.Name == ra.field {
 				ok = true
 			}
 		}
 		c.Check(ok, "C04-R3", "engage:reapplies-"+ra.field, p.pos(engage.Pos()), ra.callee+"(t."+ra.field+") on Resume")
 	}
 	okFocus := false
-	for _, call := range callsIn(engage, func(n string, _ *ssa.CallCommon) bool { return strings.HasSuffix(n, "tScreen).enableFocusReporting") }) {
-		for _, a := range guardsAt(call.Block()) {
+	for _, d := range engDeep {
+		if cc := callCommon(d.in); cc == nil || !strings.HasSuffix(calleeName(cc), "tScreen).enableFocusReporting") {
+			continue
+		}
+		for _, a := range d.atoms() {
 			if a.L == "t.focusEnabled" && a.Op == "==" && a.R == "true" {
 				okFocus = true
 			}
@@ -453,17 +464,17 @@ func checkC04(c *Ctx) {
 	}
 	c.Check(okFocus, "C04-R3", "engage:reapplies-focus", p.pos(engage.Pos()), "focus reporting re-enabled iff t.focusEnabled")
 	okTitle := false
-	eachInstr(engage, func(in ssa.Instruction) {
-		for _, id := range emitIdents(p, in) {
+	for _, d := range engDeep {
+		for _, id := range emitIdents(p, d.in) {
 			if id == "prepared:setTitle" {
-				for _, a := range guardsAt(in.Block()) {
+				for _, a := range d.atoms() {
 					if a.L == "t.title" && a.Op == "!=" && a.R == "\"\"" {
 						okTitle = true
 					}
 				}
 			}
 		}
-	})
+	}
 	c.Check(okTitle, "C04-R3", "engage:reapplies-title", p.pos(engage.Pos()), "title re-emitted when one is set")
 	// togglers
 	type toggler struct {
@@ -580,16 +591,21 @@ func checkC04(c *Ctx) {
 	{
 		// the title stack: push (save) before the application's title is written
 		var save, set ssa.Instruction
-		eachInstr(engage, func(in ssa.Instruction) {
-			for _, id := range emitIdents(p, in) {
+		var saveIn, setIn ssa.Instruction
+		for _, d := range engDeep {
+			for _, id := range emitIdents(p, d.in) {
 				if id == "prepared:saveTitle" {
-					save = in
+					save, saveIn = d.anchor, d.in
 				}
 				if id == "prepared:setTitle" {
-					set = in
+					set, setIn = d.anchor, d.in
 				}
 			}
-		})
+		}
+		// both inside one helper: the order is the helper's own
+		if save != nil && save == set && saveIn.Parent() == setIn.Parent() {
+			save, set = saveIn, setIn
+		}
 		ok := save != nil && set != nil && !reachableAfter(set, save) && reachableAfter(save, set)
 		c.Check(ok, "C04-R5", "engage:title-saved-before-set", p.pos(engage.Pos()), "the terminal's title is pushed on its title stack before the application's title is written (otherwise the restore at exit brings back the application's own title)")
 	}
